@@ -17,6 +17,7 @@ import (
 	"errors"
 	"fmt"
 	"io"
+	"math"
 	"math/rand"
 	"strings"
 
@@ -734,6 +735,54 @@ var coreWitnesses = []struct {
 	{"comment-before-stream", "3 0 obj<</Length 2>>%c\nstream\nab\nendstream%c\nendobj", true, Obj{K: pdfsyn.KStream, D: []pdfsyn.Entry{{Key: []byte("Length"), Val: num(2)}}, S: []byte("ab")}},
 }
 
+// runNumberAgreement: numeric operands outside what either parser stores as an
+// integer (beyond 64 bits) or far outside the real range. Neither parser has to
+// accept them; where both do, they assign the same value.
+func runNumberAgreement(c *fw.Ctx) {
+	r := c.Rand("number-agreement")
+	spell := []string{"9223372036854775808", "-9223372036854775809", "10000000000000000000", "18446744073709551616", "-18446744073709551616",
+		"340282346638528859811704183484516925440", "99999999999999999999", "-99999999999999999999", "+12345678901234567890123", "000018446744073709551616"}
+	for k := 0; k < c.N(200, 4000); k++ {
+		n := 19 + r.Intn(25)
+		d := digits(r, n)
+		if d[0] == '0' {
+			d = "1" + d[1:]
+		}
+		spell = append(spell, []string{"", "-", "+"}[r.Intn(3)]+d)
+	}
+	num := func(o core.Object) (float64, bool) {
+		switch v := o.(type) {
+		case core.Int:
+			return float64(v), true
+		case core.Real:
+			return float64(v), true
+		}
+		return 0, false
+	}
+	for i, sp := range spell {
+		id := fmt.Sprintf("numagree:%d", i)
+		if !c.Want(id) {
+			continue
+		}
+		c.Case("numagree|"+sp, true)
+		detail := map[string]any{"input": sp}
+		c.Guard("number-agreement", id, detail, func() {
+			co, cerr := core.NewParser(strings.NewReader(sp + " ")).ParseObject()
+			ops, perr := contentstream.NewParser([]byte(sp + " w")).Parse()
+			if cerr != nil || perr != nil || len(ops) != 1 || len(ops[0].Operands) != 1 {
+				c.Count("out_of_range_numbers_refused_by_one_parser", 1)
+				return
+			}
+			a, ok1 := num(co)
+			b, ok2 := num(ops[0].Operands[0])
+			c.Count("out_of_range_numbers_compared", 1)
+			if !ok1 || !ok2 || !(a == b || math.Abs(a-b) <= 1e-9*math.Max(math.Abs(a), math.Abs(b))) {
+				c.Fail("", "number-agreement/out-of-range-integer", id, fmt.Sprintf("operand %s: the document parser reads %v (%T), the content-stream parser %v (%T)", sp, co, co, ops[0].Operands[0], ops[0].Operands[0]), detail)
+			}
+		})
+	}
+}
+
 func runWitnesses(c *fw.Ctx) {
 	for _, wt := range csWitnesses {
 		id := "w:cs:" + wt.name
@@ -845,6 +894,7 @@ func Run(c *fw.Ctx) {
 		"a data LF inside a literal string is written as an unescaped CR / CR LF (which §7.3.4.2 reads as LF) only in a quarter of the cases (trigger of finding "+findingRawEOL+" while it is open)")
 
 	runWitnesses(c)
+	runNumberAgreement(c)
 	runFindingWitnesses(c)
 
 	n := c.N(15000, 300000) // x 12 policies
